@@ -156,6 +156,8 @@ def array_facts(plan, cv, results, outs, resumed=False, pre=None, target_info=No
                     else:
                         grid = [len(d) for d in eval(back.split(" ; ")[2])] if back else []
                         nkeys = int(np.prod(grid)) if grid else 1
+                    if any(int(n) == 0 for n in z.shape):
+                        nkeys = -1        # zero-size array: nothing needs to be stored
                 except Exception:
                     nkeys = -1
             if name in res_by_name and name in by_name:
